@@ -311,7 +311,14 @@ static std::string opGetrf(Args& a){
 //   'm' x = solve(...) % I                      'n' x = inv-product % I                      (product with a dense identity)
 //   every right-hand side kind, explicit inverse evaluated as a matrix (matrix_inverse::assign_to / plus_assign_to):
 //   'x' Ainv = inv(A,tag); x = Ainv % B  resp.  B % Ainv      'y' Ainv = 1; noalias(Ainv) += inv(A,tag); Ainv -= 1; same product
+//   only with -DC02_TRANS_FORMS=1|2 (the transpose rewrite of a solve expression does not compile in the pinned tree;
+//   checks/c02.py probes this per tree and switches the forms on as soon as it does; 1: it instantiates for operands
+//   of the same type only -- the right-hand side is copied to A's orientation first; 2: for any operands):
+//   't' Xt = trans(solve(...)); x = trans(Xt)     'c' column(solve(...),k) for every k     'l' e_i % solve(...) for every i
 static bool formKnown(char form, bool vec){
+#ifdef C02_TRANS_FORMS
+	if(!vec && (form == 't' || form == 'c' || form == 'l')) return true;
+#endif
 	if(form == 's' || form == 'i' || form == 'a' || form == 'b' || form == 'e' || form == 'x' || form == 'y') return true;
 	if(vec) return false;
 	return form == 'r' || form == 'j' || form == 'p' || form == 'q' || form == 'm' || form == 'n';
@@ -353,6 +360,11 @@ Dense frontMat(Dense const& A, Dense const& B, Tag tag, char form, int& ix){
 	matrix<double, OA> at = trans(a);
 	matrix<double, OB> bt = trans(rhs);
 	matrix<double> I(C, C, 0.0); for(std::size_t k = 0; k != C; ++k) I(k, k) = 1.0;
+#if defined(C02_TRANS_FORMS) && C02_TRANS_FORMS >= 2
+	matrix<double, OB> const& rhsT = rhs;       // operands of different orientation instantiate too
+#else
+	matrix<double, OA> rhsT = rhs;              // level 1: the transpose rewrite only instantiates for operands of one type
+#endif
 	Flag fl;
 	if(form == 's') x = solve(a, rhs, tag, Side());
 	else if(form == 'i'){ if(Side::is_left) x = inv(a, tag) % rhs; else x = rhs % inv(a, tag); }
@@ -382,6 +394,20 @@ Dense frontMat(Dense const& A, Dense const& B, Tag tag, char form, int& ix){
 			noalias(column(x, k)) = col;
 		}
 	}
+#ifdef C02_TRANS_FORMS
+	else if(form == 't'){ matrix<double, OB> xt = trans(solve(a, rhsT, tag, Side())); x = trans(xt); }
+	else if(form == 'c'){
+		auto const e = solve(a, rhsT, tag, Side());
+		for(std::size_t k = 0; k != C; ++k){ vector<double> col = column(e, k); noalias(column(x, k)) = col; }
+	}
+	else if(form == 'l'){
+		for(std::size_t i = 0; i != R; ++i){
+			vector<double> e(R, 0.0); e(i) = 1.0;
+			vector<double> r = e % solve(a, rhsT, tag, Side());
+			noalias(row(x, i)) = r;
+		}
+	}
+#endif
 	else if(form == 'm') x = solve(a, rhs, tag, Side()) % I;
 	else if(form == 'n'){ if(Side::is_left) x = (inv(a, tag) % rhs) % I; else x = (rhs % inv(a, tag)) % I; }
 	else throw std::runtime_error("bad-form");
